@@ -91,8 +91,26 @@ def r1_r2_init(repo, rep):
       raise Undecided('expected one store to self.%s in TBRMMData.__init__ (found %d)' % (field, len(ns)))
     return ns[0]
 
+  def labels_plain(e):
+    """list(X.index), X.index.tolist(), X.index.to_list(), X.index.values -> X.index: the same row labels in the same order."""
+    class _L(ast.NodeTransformer):
+      def visit_Call(self, c):
+        self.generic_visit(c)
+        if isinstance(c.func, ast.Name) and c.func.id == 'list' and len(c.args) == 1 and not c.keywords and isinstance(c.args[0], ast.Attribute) and c.args[0].attr == 'index':
+          return c.args[0]
+        if isinstance(c.func, ast.Attribute) and c.func.attr in ('tolist', 'to_list', 'to_numpy') and not c.args and not c.keywords \
+            and isinstance(c.func.value, ast.Attribute) and c.func.value.attr == 'index':
+          return c.func.value
+        return c
+      def visit_Attribute(self, a):
+        self.generic_visit(a)
+        if a.attr == 'values' and isinstance(a.value, ast.Attribute) and a.value.attr == 'index':
+          return a.value
+        return a
+    return _L().visit(dataflow.clone(e))
+
   def full(n, e):
-    return norm(rd.expand(n, e, depth=12, keep=(resp,), aliases=True)[0])
+    return norm(labels_plain(rd.expand(n, e, depth=12, keep=(resp,), aliases=True)[0]))
   # canonical string IDs before the pivot
   casts = [n for n in g.nodes if n.kind == 'stmt' and isinstance(n.ast, ast.Assign) and re.search(r"(\.geo|\['geo'\])$", norm(n.ast.targets[0]))
            and re.search(r"astype\(('str'|str)\)", norm(n.ast.value))]
@@ -138,7 +156,7 @@ def r1_r2_init(repo, rep):
       rep.check_term(filled, table, VOC_I, 'R1/ingestion', 'means and shares are computed from the zero-filled table (missing cells count as 0)', f.qualname, 'table = ' + table[:160],
                      'the means/shares/order are computed from `%s`, in which missing (geo, date) cells are not zero: geos with missing cells get a mean over observed dates only'
                      % table[:120], f.loc(pc))
-      okdf = re.fullmatch(r'(.+)\.loc\[list\((.+)\.index\)\]', df_txt) or re.fullmatch(r'(.+)\.loc\[(.+)\.index\]', df_txt) or re.fullmatch(r'(.+)\.reindex\((.+)\.index\)', df_txt)
+      okdf = re.fullmatch(r'(.+)\.loc\[(.+)\.index\]', df_txt) or re.fullmatch(r'(.+)\.reindex\((.+)\.index\)', df_txt)
       rep.check_term(okdf is not None and okdf.group(2) == means and (okdf.group(1) == table), df_txt, VOC_I, 'R1/ingestion', 'rows of df are reordered by decreasing mean', f.qualname,
                      'self.df = ' + df_txt[:160], 'self.df is `%s`: not the zero-filled pivot table with rows in the order of the sorted means' % df_txt[:120], f.loc(sdf.ast))
     gtxt = re.sub(r'^set\(list\((.*)\)\)$', r'set(\1)', full(sgeos, sgeos.ast.value))      # set(list(x)) is set(x)
